@@ -105,20 +105,25 @@ def c11_cmp(a, b):
 
 # ---- the standard PEP 440 order (packaging's _cmpkey), used for C03 ----
 def std_key(d):
+    """packaging's _cmpkey: the public PEP 440 ordering (dev-only releases sort before pre-releases)"""
     rel = list(d["release"])
     while rel and rel[-1] == 0:
         rel.pop()
-    NEG, POS = (-1,), (2 ** 70,)
+    NEG, POS = (0,), (2,)
     if d["pre"] is None and d["post"] is None and d["dev"] is not None:
         pre = NEG
     elif d["pre"] is None:
         pre = POS
     else:
-        pre = (0, PHASE[d["pre"][0]], d["pre"][1])
-    post = NEG if d["post"] is None else (0, d["post"])
-    dev = POS if d["dev"] is None else (0, d["dev"])
+        pre = (1, PHASE[d["pre"][0]], d["pre"][1])
+    post = NEG if d["post"] is None else (1, d["post"])
+    dev = POS if d["dev"] is None else (1, d["dev"])
     if d["local"] is None:
         local = NEG
     else:
-        local = (0,) + tuple((x, "") if isinstance(x, int) else (-1, x) for x in d["local"])
+        local = (1, tuple((1, x, "") if isinstance(x, int) else (0, 0, x) for x in d["local"]))
     return (d["epoch"], tuple(rel), pre, post, dev, local)
+
+
+def std_lt(a, b):
+    return std_key(a) < std_key(b)
